@@ -122,6 +122,22 @@ def run_case(case):
                 F('DER', 're-encode-raises', e.brief(), e.sig)
             elif e.value != der:
                 F('DER', 're-encode', 'der.encode(decoded)=%s, input=%s' % (e.value.hex()[:160], der.hex()[:160]))
+    # the library's own DER of the typed value (with its CHOICE levels and tags known) is a fixpoint of schemaless decode + encode
+    try:
+        obj = build.value_from(build.schema(T), T, v)
+    except build.BuildError:
+        raise
+    except Exception:
+        obj = None
+    if obj is not None:
+        e0 = lib.encode('DER', obj)
+        if e0.ok:
+            d = lib.decode('DER', e0.value)
+            if d.ok and d.rest == b'' and isinstance(d.value, base.Asn1Item):
+                e1 = lib.encode('DER', d.value)
+                if e1.ok and e1.value != e0.value:
+                    F('DER-typed', 're-encode', 'der.encode(decode(der.encode(typed value)))=%s, der.encode(typed value)=%s' % (
+                        e1.value.hex()[:160], e0.value.hex()[:160]))
     return fails
 
 
